@@ -19,7 +19,10 @@ RULE = ("Hypothesis draws an invertible, well-conditioned operator tree over eve
         "inv(A).T, inv(A).H and b @ inv(A). Non-trivial: a structural rule, an explicit algorithm, or a complex/multi-column "
         "system. Right-hand sides are rescaled by 10^-6..10^6; the same inverse operator is then applied to a second "
         "right-hand side of the same shape and another scale, and to the first one again (each product must be a solution); "
-        "the caller's right-hand side must be unchanged.")
+        "the caller's right-hand side must be unchanged."
+        " Further: operators rescaled by 10^+-3 and a Jacobi preconditioner for CG; a mid mode (dense systems of"
+        " 30..60 rows under CG, CG+P, GMRES, Auto, Cholesky, LU, where the tolerance decides); operators within 1e-6"
+        " of the identity / of a unit-diagonal triangular matrix.")
 ASSUMPTIONS = [
     "direct paths: |A x - b| <= 1e3 n eps (|A||x| + |b|) with eps of the coarsest dtype in the tree; inverse matrix to 1e3 eps cond; iterative paths: |A x - b| <= 20 tol |b| cond-free plus the direct bound",
     "in-contract refusals (AssertionError: CG / Cholesky on operators not declared PSD) are tallied, not failures",
